@@ -7,27 +7,14 @@ from pathlib import Path
 V = Path(__file__).resolve().parent.parent
 ALL = [f"C{i:02d}" for i in range(1, 21)]
 
-# property -> (technique, level text, level note, design_ref)
-CHECKS = {
-    "C08": (
-        "TLA+ field spec (Field.tla) + TLC trace/table validation of the real FQ/FQP classes on toy fields",
-        "TLC recomputes every recorded operation of py_ecc's real reference and optimized field classes "
-        "(instantiated on 24-29 small fields incl. degree-12 towers of the library's shape) with the "
-        "mathematical operators of Field.tla; unary ops and, for small fields, all pairs are exhaustive "
-        "(TLC counts the domain). The classes are generic in (p, modulus), so a wrong formula is wrong on "
-        "the enumerated fields too.",
-        "Trusted: TLC, Field.tla's definitions (polynomial product/remainder, n-fold product), the "
-        "projection of stored coefficients to ints. Full-size (254/381-bit) instances are bound only "
-        "through the genericity of the classes.",
-        "DESIGN.md section 5 C08"),
-}
-
+CHECKS = json.load(open(V / "tools" / "checks.json"))
 NOT_YET = "check not built yet in this round (planned, see DESIGN.md section 9)"
 
 
 def main():
     checks = []
-    for pid, (tech, text, note, ref) in sorted(CHECKS.items()):
+    for pid, c in sorted(CHECKS.items()):
+        tech, text, note, ref = c['technique'], c['text'], c['note'], c['ref']
         checks.append({
             "property_id": pid,
             "quick_cmd": f"./check {pid} --tier quick",
